@@ -508,7 +508,11 @@ def run_history(rec: Rec, keeper, start, base, events):
             word, attr = ev[1].split(".")
             setattr(getattr(h, word), attr, _conv(sp, key, ev[2]))
             # the header's own getter says whether the word handed out is the live one (it is on this tree)
-            m[IDX[key]] = _getter(h, key)
+            g = _getter(h, key)
+            if g not in (m[IDX[key]], ev[2]):  # neither the old nor the new value
+                bad("SpacePacketHeader.fields", "values", g, ev[2])
+            else:
+                m[IDX[key]] = g
         else:
             ver, typ, shf, apid, fl, cnt, dl = m
             ref = R.sp_header(*m)
@@ -534,11 +538,15 @@ def run_history(rec: Rec, keeper, start, base, events):
                 # expected from what the packet's own header reports (on this tree pkt.sp_header is the subject)
                 ph = pkt.sp_header
                 pf = (ph.ccsds_version, int(ph.packet_type), int(ph.sec_header_flag), ph.apid, int(ph.seq_flags), ph.seq_count, ph.data_len)
-                exp_raw = R.sp_header(*pf) + (b"\x01\x02" if pf[2] else b"") + b"\x03"
-                r = pkt.pack()
-                if bytes(r) != exp_raw:
-                    bad("SpacePacket.pack", "octets", bytes(r), exp_raw)
-                keeper.hold("history/SpacePacket.pack", r, buf_obs, case)
+                if not all(0 <= v < (1 << n) for v, n in zip(pf, (3, 1, 1, 11, 2, 14, 16))):
+                    # the header reports a value its field cannot hold (nothing in the history put it there)
+                    bad("SpacePacketHeader.fields", "values", pf, tuple(m))
+                else:
+                    exp_raw = R.sp_header(*pf) + (b"\x01\x02" if pf[2] else b"") + b"\x03"
+                    r = pkt.pack()
+                    if bytes(r) != exp_raw:
+                        bad("SpacePacket.pack", "octets", bytes(r), exp_raw)
+                    keeper.hold("history/SpacePacket.pack", r, buf_obs, case)
             elif o == "repr":
                 repr(h)
     # final observation: getters first, then the encoders (a history ending in an observer event has them the other way round)
